@@ -297,6 +297,20 @@ def Da():
     return p
 
 
+def K():
+    """exact, base-class (two inheritance levels) and Kleene triggers competing in one state"""
+    m = Machine('K', [['K0', 'K1', 'K2']], [],
+                [Row('K0', 'eb', 'K1', act=1, guard=1),          # base-class trigger: matches eb, ed1, ed2
+                 Row('K0', 'ed1', None, act=2, guard=2),         # exact for ed1, base for ed2
+                 Row('K0', '*', None, act=3, guard=3),           # Kleene: matches everything
+                 Row('K0', 'ed2', 'K2', act=4, guard=4),         # exact for ed2
+                 Row('K1', '*', 'K0', act=5, guard=5),
+                 Row('K1', 'e0', None, act=6),
+                 Row('K2', 'eb', 'K0', act=7),
+                 Row('K2', 'e0', 'K1', act=8, guard=6)])
+    return Program(m, ['e0', 'eb', 'ed1', 'ed2'], evt_base={'ed1': 'eb', 'ed2': 'ed1'})
+
+
 def _pol(base, pol):
     p = base()
     for m in p.machines: m.policy = pol
@@ -305,7 +319,7 @@ def _pol(base, pol):
     return p
 
 
-CATALOG = {f.__name__: f for f in (Q, Q1, Q2, D, Da, F1, R2, R3, H2, H3, X, HIn, HIa, HIs, A, Ai, T, FL)}
+CATALOG = {f.__name__: f for f in (Q, Q1, Q2, D, Da, K, F1, R2, R3, H2, H3, X, HIn, HIa, HIs, A, Ai, T, FL)}
 
 POLICIES = ['after_entry', 'after_transition_action', 'after_exit', 'before_transition']
 for _b in (F1, R2, H2):
